@@ -434,6 +434,26 @@ class SD:
                 run.ob(rule, f"{q}:build-uses-own-type", okb, loc(bd),
                        f"type byte written is {show(segs[0][2][1]) if segs and segs[0][0] == 'pack' and len(segs[0][2]) == 2 else '?'}; registered type is {tv}")
                 break
+        # the option type bytes and the entry type bytes are fixed by the SOME/IP-SD specification: an independent decoder reads
+        # the class from them
+        SPEC_OPT = {"header.SOMEIPSDConfigOption": 0x01, "header.SOMEIPSDLoadBalancingOption": 0x02, "header.IPv4EndpointOption": 0x04,
+                    "header.IPv6EndpointOption": 0x06, "header.IPv4MulticastOption": 0x14, "header.IPv6MulticastOption": 0x16,
+                    "header.IPv4SDEndpointOption": 0x24, "header.IPv6SDEndpointOption": 0x26}
+        wrong = {q: reg[q]["type"] for q in SPEC_OPT if q in reg and reg[q]["type"] != SPEC_OPT[q]}
+        absent = sorted(q for q in SPEC_OPT if q not in reg)
+        run.ob(rule, f"{OPTION}:specification-type-values", not wrong and not absent, loc(self.m(OPTION, "parse")),
+               f"{len(SPEC_OPT)} option classes carry their SOME/IP-SD type byte" if not wrong and not absent else
+               f"option type bytes deviate from SOME/IP-SD: {({k.split('.')[-1]: hex(v) if isinstance(v, int) else v for k, v in wrong.items()})} {('not registered: ' + str(absent)) if absent else ''}")
+        SPEC_ENT = {"FindService": 0x00, "OfferService": 0x01, "Subscribe": 0x06, "SubscribeAck": 0x07}
+        wrong_e = {n: int(v) for n, v in self.types.items() if n in SPEC_ENT and int(v) != SPEC_ENT[n]}
+        absent_e = sorted(set(SPEC_ENT) - set(self.types))
+        run.ob(rule, f"{ETYPE}:specification-values", not wrong_e and not absent_e, loc(self.m(ENTRY, "parse"), prog.cls(ETYPE).node),
+               "the four entry types carry their SOME/IP-SD byte values (0, 1, 6, 7)" if not wrong_e and not absent_e else
+               f"entry type bytes deviate from SOME/IP-SD: {({n: hex(v) for n, v in wrong_e.items()})} {('missing ' + str(absent_e)) if absent_e else ''}")
+        l4 = enum_members(prog, "header.L4Protocols") or {}
+        okl4 = int(l4.get("TCP", -1)) == 6 and int(l4.get("UDP", -1)) == 17
+        run.ob(rule, "header.L4Protocols:specification-values", okl4, loc(self.m(OPTION, "parse"), prog.cls("header.L4Protocols").node),
+               "transport protocol numbers are the IANA ones (TCP 6, UDP 17)" if okl4 else f"L4Protocols = {({n: int(v) for n, v in l4.items()})}; SOME/IP-SD uses TCP 6 / UDP 17")
         # register() stores under the class' type
         regm = self.m(OPTION, "register")
         oc = P(regm, param_at(regm, 0, "option_cls"))
